@@ -1,5 +1,5 @@
 (* C09 driver.
-   tx <faults> <ops>      -> wire bytes and per-message results of the extracted transport model
+   tx|txd <faults> <ops>      -> wire bytes and per-message results of the extracted transport model
                              (variant VFixed: the one theorem torn_write_stops_stream is about)
    fault <scenario> ...   -> "clean": by lock_discipline / tasks_balanced / torn_write_stops_stream
                              every run of every scenario under every fault terminates with all
@@ -16,14 +16,15 @@ let parse_faults s =
     | _ -> failwith "fault") (split ',' s)
 
 let parse_op s = match String.split_on_char ':' s with
-  | [c; _l; bufs] -> (c = "1", List.map bytes_of_hex (split '+' bufs))
+  | [c; _l; bufs] ->
+    ((match c with "1" -> CDone | "2" -> CCancel1 | _ -> CLive), List.map bytes_of_hex (split '+' bufs))
   | _ -> failwith "op"
 
 let show_res = function SOk -> "ok" | SErr -> "err" | SNmErr -> "nm"
 
 let () = iter_lines (fun line ->
   match split_ws line with
-  | "tx" :: f :: rest ->
+  | ("tx" | "txd") :: f :: rest ->
     let ops = match rest with [] -> [] | o :: _ -> List.map parse_op (split ';' o) in
     let (wire, rs) = run_tbl VFixed (parse_faults f) ops in
     print_endline (hex_of_bytes wire ^ " " ^ String.concat "," (List.map show_res rs))
